@@ -50,3 +50,21 @@ Definition element_layer_is_the_regenerated_glue : Prop :=
 Definition regenerated_glue_gives_the_model_value : Prop :=
   forall (A : Type) (NA : Num A) (E : engine A) (U : universe) (P : params A) (g : graph) (opts : options) (st : state A) out,
     network_step E U P g opts st = Ok out -> gen_network_step E U P g opts st = Ok out.
+
+(* C01's statement with the REGENERATED glue in the place of the hand-written model: on every valid network the
+   definitions translated from blocks/*.py, run over the engine definitions translated from engines/*.py, return
+   the METANET values of Spec.v (link_result_ok / origin_result_ok are C01's per-segment and per-queue clauses) *)
+From Coq Require Import Reals.
+From SM Require Import NumR Spec Validity.
+From SM.specs Require Import GraphWF C01_spec.
+
+Definition regenerated_step_is_METANET (E : engine R) : Prop :=
+  forall (U : universe) (P : params R) (g : graph) (st : state R),
+    wf_graph g -> validb U g = true ->
+    (forall e, In e (g_edges g) -> wf_link U st (e_link e)) ->
+    (forall e, In e (g_edges g) -> lp P (e_link e) Pturn <> 0%R) ->
+    (forall e, In e (g_edges g) -> lp P (e_link e) Prhocrit <> 0%R) ->
+    exists out,
+      gen_network_step E U P g no_options st = Ok out /\
+      Forall2 (link_result_ok U P g st) (links g) (o_links out) /\
+      Forall2 (origin_result_ok U P g st) (map fst (origins_dict g)) (o_queues out).
